@@ -313,6 +313,28 @@ def run(p: Program, rep: Report, tier: str) -> None:
                               f"{what} header text with {cd or 'a non-constant codec'}, not Latin-1: a header value with a non-ASCII byte sent by the inner application is decoded by the middleware with one codec and "
                               "re-encoded with another, so wrapping the application changes (or fails on) that header")
     rep.require_instances("R20.6", 4)
+
+    # ---------------------------------------------------------------- R20.7 the rebuilt response emits its headers like any other response
+    # NextResponse (the inner response as seen by the handler) sends its captured headers through the shared
+    # BaseResponse.list_headers; a private re-serialisation (e.g. splitting a folded value on ', ') changes header values
+    # that contain that separator - an Expires date - although the middleware forwarded the response unchanged
+    for side in ("wsgi", "asgi"):
+        ncls = p.cls(f"baize.{side}.middleware:NextResponse")
+        base_lh = p.cls("baize.responses:BaseResponse").methods.get("list_headers")
+        found = p.find_method(ncls, "list_headers")
+        if found is None or base_lh is None:
+            raise AnalysisError("list_headers vanished")
+        if found.fq == base_lh.fq:
+            rep.ok("R20.7", f"{side}: NextResponse emits its headers through the shared BaseResponse.list_headers")
+        else:
+            surgery = [c for c in calls_in(found, deep=True) if isinstance(c.func, ast.Attribute) and c.func.attr in ("split", "rsplit", "join", "replace", "partition", "rpartition", "strip", "lower", "title")]
+            if surgery:
+                rep.violation("R20.7", construct(found, text=f"private list_headers with .{surgery[0].func.attr}()"), where(found, surgery[0]),
+                              f"{side}: {found.fq} overrides the header emission of the rebuilt response and rewrites header text (.{surgery[0].func.attr}(...)): a value the handler returned unchanged "
+                              "(e.g. a Set-Cookie with an Expires date, which contains ', ') is re-serialised differently from the bare application's")
+            else:
+                rep.ok("R20.7", f"{side}: NextResponse has its own list_headers that does not rewrite header text")
+    rep.require_instances("R20.7", 2)
     rep.require_instances("R20.1", 1)
     rep.require_instances("R20.2", 8)
     rep.require_instances("R20.3", 2)
